@@ -318,7 +318,7 @@ where
         Kind::Chunk => Entry::Chunk,
     };
     let mine: Vec<&crate::selftest::TExp> = ex.cases.iter().filter(|c| accept(entry_of(c.kind.unwrap()), 0)).collect();
-    for c in &mine {
+    for c in mine.iter().filter(|_| !r.alt_pass()) {
         match crate::selftest::model_agrees(c) {
             Ok(n) => {
                 compared += n;
@@ -327,10 +327,12 @@ where
             Err(e) => r.inconclusive.lock().unwrap().push(format!("model self-test: {}", e)),
         }
     }
+    if !r.alt_pass() {
     r.note(format!(
         "model self-test: {} expectations ({} assertions) extracted from the repository's tests agree with the model ({} test functions seen, {} skipped because they compute their input, {} statements not understood; all kinds: {} cases / {} assertions)",
         cases, compared, ex.tests_seen, ex.tests_skipped_computed_input, ex.statements_skipped, ex.cases.len(), ex.assertions_used
     ));
+    }
     if mine.is_empty() {
         return;
     }
@@ -368,6 +370,59 @@ where
             return Ok(());
         }
         let rec = CaseRec::new(sub, entry, cfg, cap, buf);
+        f(r, ctx, l, &rec)
+    });
+}
+
+pub const CHUNK_BASES: [&[u8]; 9] = [
+    b"1f\r\n",
+    b"0\r\n\r\n",
+    b"1a;ext=val\r\n",
+    b"FFFFFFFFFFFFFFFF\r\n",
+    b"12 \t;x y\r\n",
+    b"00000000000000001\r\n",
+    b"aBcDeF09 \r\nrest",
+    b"7;name=\"caf\xc3\xa9 au lait, s'il vous pla\xc3\xaet\"\r\n",
+    b"5;abcdefghijklmnopqrstuvwxyz0123456789\xe9\r\nhello",
+];
+
+/// chunk-size lines for the model-free checks: 256 values at every position of 9 bases
+/// (overwrite and insert), and every string of length <= 4 over a 20-symbol alphabet
+/// followed by each of 4 tails.
+pub fn chunk_sweep_phase<F>(r: &Runner, sub: &'static str, f: F)
+where
+    F: Fn(&Runner, &mut Ctx, &mut Local, &CaseRec) -> Result<(), Violation> + Sync,
+{
+    let mut offs = vec![0u64];
+    for b in CHUNK_BASES.iter() {
+        offs.push(offs.last().unwrap() + (b.len() as u64 + 1) * 256 * 2);
+    }
+    r.par_enum("chunk-size lines: 256 values at every position of 9 bases × {overwrite, insert}", *offs.last().unwrap(), |ctx, l, idx| {
+        let bi = offs.partition_point(|&o| o <= idx) - 1;
+        let base = CHUNK_BASES[bi];
+        let x = idx - offs[bi];
+        let v = (x % 256) as u8;
+        let ins = (x / 256) % 2 == 1;
+        let pos = (x / 512) as usize;
+        let mut buf = base.to_vec();
+        if ins {
+            buf.insert(pos, v);
+        } else if pos < buf.len() {
+            buf[pos] = v;
+        } else {
+            buf.push(v);
+        }
+        let rec = CaseRec::new(sub, Entry::Chunk, 0, 0, buf);
+        f(r, ctx, l, &rec)
+    });
+    const ALPHA: [&[u8]; 20] = [b"0", b"1", b"9", b"a", b"f", b"F", b"g", b"x", b"+", b"-", b" ", b"\t", b";", b"\r", b"\n", b"\0", b"\x80", b".", b"#", b"G"];
+    const TAILS: [&[u8]; 4] = [b"", b"\r\n", b";e\r\n", b"0\r\n"];
+    let n = crate::gen::count_upto(ALPHA.len() as u64, 4);
+    r.par_enum("chunk-size strings over a 20-symbol alphabet (incl. '+', '-', 'x', '.'), length ≤4, × 4 tails", n * TAILS.len() as u64, |ctx, l, idx| {
+        let mut buf = Vec::with_capacity(12);
+        crate::gen::nth_string(&ALPHA, idx / TAILS.len() as u64, &mut buf);
+        buf.extend_from_slice(TAILS[(idx % TAILS.len() as u64) as usize]);
+        let rec = CaseRec::new(sub, Entry::Chunk, 0, 0, buf);
         f(r, ctx, l, &rec)
     });
 }
